@@ -231,7 +231,7 @@ theorem inst_shape (code : Nat) (sender : String) (ss : List MtSetter) (args : L
 
 /-- exec without `with_funds` sends no funds -/
 theorem exec_shape (slot : Nat) (sender : String) (m : MsgRef) :
-    (ProxyOp.exec slot sender none m).shape = .exec slot sender 0 ∧ ∀ n, (ProxyOp.exec slot sender (some n) m).shape = .exec slot sender n :=
+    (ProxyOp.exec slot sender none m).shape = .exec slot sender (.amount 0) ∧ ∀ n, (ProxyOp.exec slot sender (some n) m).shape = .exec slot sender n :=
   ⟨rfl, fun _ => rfl⟩
 
 -- ------------------------------------------------------------------------------------------------
@@ -271,7 +271,7 @@ theorem demo_wf : ProgWF demo := by
     simp [hall m this]
 
 /-- a history on `demo` that lowers, runs, and changes the chain: store, instantiate with options, exec with funds -/
-example : ∃ raws, lowerAll demo [.store, .inst 0 "alice" [.label "x", .funds 5] [], .exec 0 "alice" (some 7) { part := 0, method := "a", args := [] }] = some raws ∧
+example : ∃ raws, lowerAll demo [.store, .inst 0 "alice" [.label "x", .funds 5] [], .exec 0 "alice" (some (.amount 7)) { part := 0, method := "a", args := [] }] = some raws ∧
     raws.length = 3 := by
   refine ⟨_, rfl, rfl⟩
 
